@@ -9,7 +9,10 @@ pub(crate) mod verif_u {
     pub(crate) const MAGIC_LOCAL: u16 = 7;
     pub(crate) const MAGIC_REMOTE: u16 = 9;
 
-    /// Struct-literal constructor (no rand, no bincode): endpoint for `handles`, 1-byte inputs.
+    /// Endpoint for `handles` (1-byte inputs), built with the REAL constructor (so that fields added by a
+    /// later refactoring get their real initial values) and then put into the state the harnesses start
+    /// from: Running with the peer's magic pinned (or Synchronizing), fixed own magic, pre-sized queues
+    /// (capacity is only an allocation hint: no reallocation on symbolic paths).
     pub(crate) fn mk_ep<T: Config<Address = u8>>(
         handles: Vec<PlayerHandle>,
         num_players: usize,
@@ -18,51 +21,28 @@ pub(crate) mod verif_u {
         state_running: bool,
     ) -> UdpProtocol<T> {
         let recv_bytes = handles.len();
-        let mut peer_connect_status = Vec::new();
-        let mut i = 0;
-        while i < num_players {
-            peer_connect_status.push(ConnectionStatus::default());
-            i += 1;
-        }
-        let mut recv_inputs = HashMap::new();
-        recv_inputs.insert(NULL_FRAME, InputBytes { frame: NULL_FRAME, bytes: vec![0; recv_bytes] });
-        let now = Instant::now();
-        UdpProtocol {
-            num_players,
+        let mut ep = UdpProtocol::<T>::new(
             handles,
-            // pre-sized (capacity is only an allocation hint): no reallocation on symbolic paths
-            send_queue: VecDeque::with_capacity(8),
-            event_queue: VecDeque::with_capacity(8),
-            state: if state_running { ProtocolState::Running } else { ProtocolState::Synchronizing },
-            sync_remaining_roundtrips: NUM_SYNC_PACKETS,
-            sync_random_requests: HashSet::new(),
-            running_last_quality_report: now,
-            running_last_input_recv: now,
-            disconnect_notify_sent: false,
-            disconnect_event_sent: false,
-            disconnect_timeout: Duration::from_millis(2000),
-            disconnect_notify_start: Duration::from_millis(500),
-            shutdown_timeout: now,
-            fps: 60,
-            magic: MAGIC_LOCAL,
-            peer_addr: 9,
-            remote_magic: if state_running { MAGIC_REMOTE } else { 0 },
-            peer_connect_status,
-            pending_output: VecDeque::with_capacity(8),
-            last_acked_input: InputBytes { frame: NULL_FRAME, bytes: vec![0; local_bytes] },
+            9,
+            num_players,
+            local_bytes,
             max_prediction,
-            recv_inputs,
-            time_sync_layer: TimeSync::new(),
-            local_frame_advantage: 0,
-            remote_frame_advantage: 0,
-            stats_start_time: 0,
-            round_trip_time: 0,
-            last_send_time: now,
-            last_sync_request_time: now,
-            last_recv_time: now,
-            pending_checksums: HashMap::new(),
-            desync_detection: DesyncDetection::Off,
-        }
+            Duration::from_millis(2000),
+            Duration::from_millis(500),
+            60,
+            DesyncDetection::Off,
+        );
+        ep.state = if state_running { ProtocolState::Running } else { ProtocolState::Synchronizing };
+        ep.magic = MAGIC_LOCAL;
+        ep.remote_magic = if state_running { MAGIC_REMOTE } else { 0 };
+        core::mem::forget(core::mem::replace(&mut ep.send_queue, VecDeque::with_capacity(8)));
+        core::mem::forget(core::mem::replace(&mut ep.event_queue, VecDeque::with_capacity(8)));
+        core::mem::forget(core::mem::replace(&mut ep.pending_output, VecDeque::with_capacity(8)));
+        // (inputs are one byte per player in every instantiation used here)
+        ep.last_acked_input = InputBytes { frame: NULL_FRAME, bytes: vec![0; local_bytes] };
+        ep.recv_inputs.clear();
+        ep.recv_inputs.insert(NULL_FRAME, InputBytes { frame: NULL_FRAME, bytes: vec![0; recv_bytes] });
+        ep
     }
 
     // ---- setters/observers for the harnesses of other modules (fields are private to this module)
